@@ -720,7 +720,11 @@ class GenericPlainRegistry(Generic[QuantityT, UnitT], metaclass=RegistryMeta):
         return self._prefixes[prefix].symbol + self._units[unit_name].symbol
 
     def _get_symbol(self, name: str) -> str:
-        return self._units[name].symbol
+        try:
+            return self._units[name].symbol
+        except KeyError:
+            # a prefixed unit that has not been parsed yet: defined on the fly
+            return self.get_symbol(name)
 
     def get_dimensionality(self, input_units: UnitLike) -> UnitsContainer:
         """Convert unit or dict of units or dimensions to a dict of plain dimensions
